@@ -233,8 +233,11 @@ func (r *Rng) SchValueWithSibling(t *SchTy, level byte, prefix string) (*Val, *S
 			return nil
 		}
 		tries++
+		if u.Crossing() {
+			return nil
+		}
 		sib := r.SchSibling(u)
-		if sib == nil {
+		if sib == nil || !sib.WF() || sib.Crossing() {
 			return nil
 		}
 		SchAssignNames(sib, prefix+"S"+strconv.Itoa(tries))
@@ -399,4 +402,50 @@ func SchBuildInj(proto schema.TypedPrototype, level string, v *Val, inj *SchInje
 		return "panic"
 	}
 	return "ok|" + SchViews(n)
+}
+
+// SchTwin: the same schema under the SAME type names with different serial details — keyed-union
+// discriminants rotated (or altered), struct renames altered.  Two schemas of one process that share
+// type names must not influence each other (no per-name caches); nil if nothing can differ.
+func SchTwin(t *SchTy, prefix string) *SchTy {
+	tw := schClone(t)
+	changed := false
+	var walk func(x *SchTy)
+	walk = func(x *SchTy) {
+		switch x.K {
+		case 'L', 'M':
+			walk(x.Elem)
+		case 'R':
+			for i := range x.Fields {
+				if x.SRepr == 'm' && x.Fields[i].Key != x.Fields[i].Name {
+					x.Fields[i].Key += "2"
+					changed = true
+				}
+				walk(x.Fields[i].T)
+			}
+		case 'U':
+			if x.URepr == 'k' {
+				n := len(x.Members)
+				if n >= 2 {
+					first := x.Members[0].Disc
+					for i := 0; i < n-1; i++ {
+						x.Members[i].Disc = x.Members[i+1].Disc
+					}
+					x.Members[n-1].Disc = first
+				} else if n == 1 {
+					x.Members[0].Disc += "2"
+				}
+				changed = changed || n >= 1
+			}
+			for i := range x.Members {
+				walk(x.Members[i].T)
+			}
+		}
+	}
+	walk(tw)
+	if !changed || !tw.WF() {
+		return nil
+	}
+	SchAssignNames(tw, prefix)
+	return tw
 }
